@@ -565,6 +565,13 @@ fn c13_case_with(seed: u64, trace: bool, padded: bool) -> CaseOut {
             a.dgram_drop_pct = *r.pick(&[0, 100]);
         }
     }
+    // the application announces a path change (RTT, congestion controller and MTU discovery restart
+    // from the configuration, whatever the peer's limit and the path allow)
+    if r.chance(50) {
+        for _ in 0..1 + r.below(3) {
+            h.ops.push((r.below(6_000_000_000), Op::PathChanged { ep: r.usize(1 + h.cli_t.len()) }));
+        }
+    }
     let mut ran = run_honest(&h, trace, 40_000, 1_800_000_000_000);
     // nothing stays queued for good: once the world has calmed down the outgoing DATAGRAM queues of
     // the surviving connections are empty
@@ -645,11 +652,11 @@ pub fn run_c13(ctx: &Ctx) -> i32 {
         &rep,
         Finish {
             level: "exploration",
-            rule: "seeded worlds with initial_mtu / min_mtu / discovery (upper bound, interval, cooldown, minimum change) configurations, peer max_udp_payload_size 1472, GSO batch 1..10, path MTU 1200..9000 that drops (black hole) or rises at random instants, coalesced handshake flights, DATAGRAM frames, loss/reorder faults, rebinding. Per transmit: every datagram <= current_mtu() read before the call (all but the last exactly segment_size) unless the call sent the MTU probe (sent_plpmtud_probes delta), which must be a single datagram <= min(upper bound, peer limit); client Initial datagrams and PATH_CHALLENGE/RESPONSE datagrams >= 1200; if loss_probes fell by d at least d datagrams <= 1200. Estimate history: rises only to the size of an earlier probe the simulated path did not drop, never below min(min_mtu, peer limit). Black hole: the workload still completes (bounded progress). (closing) connections closed by either side after every prefix of an exchange with application error codes of 1/2/4/8 encoded bytes and reasons of 0..5000 bytes: the same per-datagram size rules.".into(),
+            rule: "seeded worlds with initial_mtu / min_mtu / discovery (upper bound, interval, cooldown, minimum change) configurations, peer max_udp_payload_size 1200..9000 (sometimes below the other side's initial MTU), GSO batch 1..10, path MTU 1200..9000 that drops (black hole) or rises at random instants, coalesced handshake flights, DATAGRAM frames, loss/reorder faults, rebinding, Connection::path_changed() at random instants on either side (half of the worlds). Per transmit: every datagram <= current_mtu() read before the call (all but the last exactly segment_size) unless the call sent the MTU probe (sent_plpmtud_probes delta), which must be a single datagram <= min(upper bound, peer limit); client Initial datagrams and PATH_CHALLENGE/RESPONSE datagrams >= 1200; if loss_probes fell by d at least d datagrams <= 1200. Estimate history: rises only to the size of an earlier probe the simulated path did not drop, never below min(min_mtu, peer limit). Black hole: the workload still completes (bounded progress). (closing) connections closed by either side after every prefix of an exchange with application error codes of 1/2/4/8 encoded bytes and reasons of 0..5000 bytes: the same per-datagram size rules.".into(),
             assumptions: vec!["with pad_to_mtu (group `padded`) only the size rules are judged, not completion (see the C02 known finding); probe acknowledgement itself is not observed, only that a probe of that size was sent and not dropped by the path".into()],
             min_evals: ctx.tier.pick(150, 5000),
             min_nontrivial: ctx.tier.pick(100, 2000),
-            required: vec!["c13.transmits_checked", "c13.mtu_probes", "c13.mtu_rises", "c13.loss_probes_sent", "c13.client_initial_dgrams", "c13.black_holes_detected", "net.mtu_drop"],
+            required: vec!["c13.transmits_checked", "c13.mtu_probes", "c13.mtu_rises", "c13.loss_probes_sent", "c13.client_initial_dgrams", "c13.black_holes_detected", "net.mtu_drop", "op.path_changed"],
             exhaustive: false,
         },
         t.elapsed().as_secs_f64(),
